@@ -278,6 +278,10 @@ def resolveDep (mh : MH) (deps : List (String × Val)) : SynM MH :=
       (match lookupVal deps f with
        | some (.int a) => pure (.intRange lo a)
        | _ => throwE (.foreign "KeyError"))
+  | .depIntRangeSpan fw flo =>
+      (match lookupVal deps fw, lookupVal deps flo with
+       | some (.int w), some (.int a) => pure (.intRange a (a + w))
+       | _, _ => throwE (.foreign "KeyError"))
   | .depListSize f =>
       (match lookupVal deps f with
        | some (.int a) => pure (.listSize a.toNat a.toNat)
@@ -293,7 +297,7 @@ def resolveDep (mh : MH) (deps : List (String × Val)) : SynM MH :=
   | m => pure m
 
 def MH.isDep : MH → Bool
-  | .depIntRangeLo .. | .depIntRangeHi .. | .depListSize .. | .depVarFrom .. => true
+  | .depIntRangeLo .. | .depIntRangeHi .. | .depIntRangeSpan .. | .depListSize .. | .depVarFrom .. => true
   | _ => false
 
 /-- characters drawn one `choice` at a time (`StringSizeBetween.generate`) -/
